@@ -391,6 +391,31 @@ theorem history_none (calls : List (Option Bytes × Meta)) (hl : lastAccepted ca
     challenge (configure calls) = none := by
   rw [config_last, hl]; rfl
 
+/-- The metadata calls among a sequence of setters. -/
+def metaCalls : List Setter → List (Option Bytes × Meta)
+  | [] => []
+  | .metadata u m :: r => (u, m) :: metaCalls r
+  | .other :: r => metaCalls r
+
+theorem foldl_applySetter : ∀ (ss : List Setter) (st : Option Config),
+    ss.foldl applySetter st = (metaCalls ss).foldl (fun st c => setMeta st c.1 c.2) st
+  | [], _ => rfl
+  | .metadata u m :: r, st => by
+    simp only [List.foldl_cons, metaCalls, applySetter]
+    exact foldl_applySetter r _
+  | .other :: r, st => by
+    simp only [List.foldl_cons, metaCalls, applySetter]
+    exact foldl_applySetter r _
+
+/-- **other_setters_inert** — interleaving `SetOAuthPkce`, `SetPrefix` or `SetAuthenticate` calls
+anywhere in the history changes nothing: the challenge is still built from the last accepted
+`SetOAuthResourceMetadata` call and its resource-derived URL, and is read back exactly. -/
+theorem other_setters_inert (ss : List Setter) (c : Config)
+    (hl : lastAccepted (metaCalls ss) = some c) (hu : NoQuote c.url) :
+    ∃ h, challenge (ss.foldl applySetter none) = some h ∧ Recovers h c.url c.md := by
+  rw [foldl_applySetter]
+  exact history_recovers (metaCalls ss) c hl hu
+
 /-! ### Non-vacuity -/
 
 /-- "https://h/a" -/
